@@ -430,6 +430,16 @@ class Executor:
             return self.construct(fv, args, kwargs, frame, node)
         if isinstance(fv, Contract_):
             return fv.apply(self, args, kwargs, frame, node)
+        if isinstance(fv, (types.BuiltinMethodType, types.MethodWrapperType)) and \
+                not isinstance(getattr(fv, "__self__", None), types.ModuleType) and \
+                all(isinstance(a, (int, str, bytes, bool, type(None), float, tuple, enum.Enum, type))
+                    for a in list(args) + list(kwargs.values())):
+            # a method of a real, concrete Python object (str.islower,
+            # mappingproxy.items, ...) applied to concrete arguments
+            try:
+                return fv(*args, **kwargs)
+            except Exception as e:
+                self.raise_builtin(type(e), *e.args)
         raise OutOfReach(f"call of unsupported callable {fv!r}")
 
     def construct(self, cls, args, kwargs, frame, node):
@@ -624,6 +634,8 @@ class Executor:
             return list(v)
         if isinstance(v, type) and issubclass(v, enum.Enum):
             return list(v)
+        if type(v).__name__ in ("dict_items", "dict_keys", "dict_values", "mappingproxy"):
+            return list(v)        # views of a real, concrete mapping
         if isinstance(v, _Items):
             return v.items
         if isinstance(v, GenValue):
